@@ -800,3 +800,21 @@ Definition ex_table_bad : grammar :=
   [ mknode HSor [1; 2] true; mknode HSeq [3; 0] true; mknode (HOne true PkChar [97%Z]) [] true; mknode HPartial [2] false ].
 Lemma ex_table_bad_problems : problems ex_table_bad <> 0.
 Proof. vm_compute. discriminate. Qed.
+
+(* ---------- the hypothesis table_wf is necessary: a zero-width decoder is an "any" atom that consumes nothing ---------- *)
+Definition zw_table : grammar := [mknode HStarPartial [1] false; mknode (HAny (PkUint 0 BE)) [] false].
+Lemma zw_star_oof : forall f n d c, star_loop (eval zw_table plain_cfg f) n d [1] c = Oof.
+Proof.
+  intros f. induction n as [|n IH]; intros d c; [reflexivity|].
+  destruct f as [|f]; [reflexivity|].
+  cbn [star_loop seq_all bind]. cbn. rewrite IH. reflexivity.
+Qed.
+Theorem zero_width_refutes :
+  exists G C, table_shape_ok G = true /\ cfg_plain_actions C /\ problems G = 0 /\
+              exists d r c, forall f, eval G C f d r c = Oof.
+Proof.
+  exists zw_table, plain_cfg. split; [reflexivity|]. split; [exact plain_cfg_ok|]. split; [vm_compute; reflexivity|].
+  exists (mkdyn true true 0 0 0), 0, (mkcur [] pos0). intros f. destruct f as [|f]; [reflexivity|].
+  cbn [eval nth_error zw_table nenabled nhead nsubs]. cbn [acts plain_cfg]. unfold eval_head. cbn [eval_atom].
+  rewrite zw_star_oof. reflexivity.
+Qed.
